@@ -119,14 +119,39 @@ def tor_reads_setconf(rest):
     return vals
 
 
+# what `GETINFO config/names` says about the port options (an environment dimension of a TorConfig
+# history; the model is the same for all of them): 'linelist' = the short table of the unit tests;
+# 'portlines' = the group a real Tor >= 0.2.3 reports (FooPort Dependent, FooPortLines Virtual,
+# __FooPort Dependent), which sends TorConfig._do_setup through its *PortLines branch;
+# 'portlines_dependant' = the same group with the spelling of older Tors
+NAMES_SHAPES = ('linelist', 'portlines', 'portlines_dependant')
+
+
+def config_names_rows(names):
+    if names == 'linelist':
+        return ['SocksPort LineList', 'ControlPort LineList']
+    dep = 'Dependent' if names == 'portlines' else 'Dependant'
+    return ['ControlPort ' + dep, 'ControlPortLines Virtual',
+            'SocksPort ' + dep, 'SocksPortLines Virtual',
+            '__ControlPort ' + dep, '__SocksPort ' + dep]
+
+
+def names_of(case):
+    """the config/names shape of a history (cases written before the dimension existed: linelist)"""
+    return case.get('names') or 'linelist'
+
+
 class ScriptedTor(object):
     """The far end of the control connection: synchronous, answers every command the client writes."""
 
-    def __init__(self, sp, dflt):
+    def __init__(self, sp, dflt, names='linelist'):
         from twisted.internet.testing import StringTransport
         from txtorcon import TorControlProtocol
         self.sp = None if sp is None else list(sp)
         self.dflt = list(dflt)
+        if names not in NAMES_SHAPES:
+            raise KeyError(names)
+        self.names = names
         self.lines = []
         self.accept = True
         self.refused = False
@@ -179,7 +204,7 @@ class ScriptedTor(object):
             if rest == 'events/names':
                 return '250-events/names=CIRC STREAM CONF_CHANGED\r\n250 OK\r\n'
             if rest == 'config/names':
-                return '250+config/names=\r\nSocksPort LineList\r\nControlPort LineList\r\n.\r\n250 OK\r\n'
+                return '250+config/names=\r\n' + ''.join(r + '\r\n' for r in config_names_rows(self.names)) + '.\r\n250 OK\r\n'
             if rest == 'config/defaults':
                 return ('250+config/defaults=\r\n' + ''.join('SocksPort %s\r\n' % d for d in self.dflt)
                         + '.\r\n250 OK\r\n')
@@ -274,7 +299,11 @@ class P(core.Prop):
     rule = ('histories: Tor\'s SocksPort = none / unset with 0..2 default lines / 1..6 lines (port, host:port, unix:path, '
             '0, auto, IPv6 and other non-numeric words) each with 0..3 option words (rarely with quotes, backslashes or '
             'double blanks); 1..4 calls of _create_socks_endpoint / Tor._default_socks_endpoint (direct) or '
-            'TorConfig.socks_endpoint / create_socks_endpoint (config) asking for nothing, the first word of a present line, '
+            'TorConfig.socks_endpoint / create_socks_endpoint (config; the TorConfig is bootstrapped by the real _do_setup from '
+            'the scripted Tor, whose GETINFO config/names lists the port options as SocksPort LineList (1 in 5), as the group '
+            'SocksPort Dependent / SocksPortLines Virtual / __SocksPort Dependent of a real Tor (3 in 5) or as that group with '
+            'the older spelling Dependant (1 in 5); the label of a config history names the shape and the number of lines '
+            'TorConfig saw at bootstrap) asking for nothing, the first word of a present line, '
             'a present line in full with its option words, another spelling of it (other / more / fewer / reordered '
             'option words, double blank), a near miss (prefix / superstring / same port other host, with or without the '
             'options) or an absent port or line; the scripted Tor '
@@ -327,7 +356,7 @@ class P(core.Prop):
         from unittest.mock import patch
         from twisted.internet import defer
         from twisted.python.failure import Failure
-        tor = ScriptedTor(case['sp'], case['dflt'])
+        tor = ScriptedTor(case['sp'], case['dflt'], names_of(case))
         reactor = RecordingReactor()
         direct = not any(is_cfg(o) for o in case['ops'])
         cfg = None
@@ -495,7 +524,12 @@ class P(core.Prop):
     def kind(self, case, obs):
         if case['kind'] == 'client':
             return 'client/%s/%s' % ('given' if case['given'] else 'fallback', obs['result'][0])
-        mode = 'config' if any(is_cfg(o) for o in case['ops']) else 'direct'
+        mode = 'direct'
+        if any(is_cfg(o) for o in case['ops']):
+            nl = len(case['dflt'] if case['sp'] is None else case['sp'])
+            mode = 'config[%s,%s at bootstrap]' % (names_of(case), '%d lines' % nl if nl != 1 else '1 line')
+            if nl > 3:
+                mode = 'config[%s,>3 lines at bootstrap]' % names_of(case)
         cfgk = 'unset' if case['sp'] is None else ('none' if not case['sp'] else 'lines')
         what = 'add' if any(any(l.startswith('SETCONF') for l in b['sent']) for b in obs['ops']) else 'use'
         if all(b['out'][0] == 'err' for b in obs['ops']):
@@ -642,7 +676,11 @@ class P(core.Prop):
                 lines = lines + [want]
             elif want is None and not any(usable(l) for l in lines) and accept and api in ('create', 'default'):
                 lines = lines + [str(avail)]
-        return {'kind': 'hist', 'sp': sp_now, 'dflt': dflt, 'ops': ops}
+        case = {'kind': 'hist', 'sp': sp_now, 'dflt': dflt, 'ops': ops}
+        if config:
+            # drawn last, so that the rest of the history is what it was before this dimension existed
+            case['names'] = rng.choice(['linelist', 'portlines', 'portlines', 'portlines', 'portlines_dependant'])
+        return case
 
     def generate(self, rng, tier, n):
         out = []
@@ -663,12 +701,38 @@ class P(core.Prop):
                         out.append({'kind': 'client', 'given': given, 'outs': [a, b, ['ok']]})
         desc = ('TorClientEndpoint.connect: every sequence of <= 2 attempt outcomes over 11 outcome kinds, with and '
                 'without a given SOCKS endpoint (%d cases)' % len(out))
+        boot = self._bootstrap_sweep()
+        out.extend(boot)
+        desc += ('; TorConfig.socks_endpoint / create_socks_endpoint as the single call on a TorConfig bootstrapped by '
+                 'the real _do_setup from a Tor with 0 / 1 / 2 / 3 SocksPort lines (set, or unset with that many default '
+                 'lines) under each config/names shape (SocksPort LineList; SocksPort Dependent + SocksPortLines Virtual + '
+                 '__SocksPort Dependent; the same with the spelling Dependant) x 5 requests (none, a present port, a '
+                 'present line, an absent port, an absent line) x accept/refuse (%d cases)' % len(boot))
         if tier == 'thorough':
             small = self._small_scope()
             out.extend(small)
             desc += ('; single calls over every configuration of <= 2 lines from 7 line shapes (plus none / unset with '
-                     'and without a default line) x 12 requests (none, ports, whole lines with the same / other option words, near misses, absent) x 4 APIs x accept/refuse (%d cases)' % len(small))
+                     'and without a default line) x 12 requests (none, ports, whole lines with the same / other option words, near misses, absent) x 4 APIs x accept/refuse, the TorConfig calls under the config/names shapes linelist and portlines (%d cases)' % len(small))
         return out, desc
+
+    @staticmethod
+    def _bootstrap_sweep():
+        tbb = ['9150 IPv6Traffic PreferIPv6 KeepAliveIsolateSOCKSAuth', '9155', 'unix:/run/tor/socks WorldWritable']
+        configs = [(None, [])]
+        for n in (1, 2, 3):
+            configs.append((tbb[:n], []))
+            configs.append((None, tbb[:n]))
+        configs.append((['0', '9155', 'auto'], []))
+        wants = [None, '9155', '9150 IPv6Traffic PreferIPv6 KeepAliveIsolateSOCKSAuth', '9999', '9999 IsolateDestAddr']
+        out = []
+        for names in NAMES_SHAPES:
+            for sp, dflt in configs:
+                for api in ('cfg_create', 'cfg_ep'):
+                    for want in wants:
+                        for accept in ((True, False) if api == 'cfg_create' else (True,)):
+                            out.append({'kind': 'hist', 'sp': sp, 'dflt': dflt, 'names': names,
+                                        'ops': [{'api': api, 'want': want, 'avail': 40001, 'accept': accept}]})
+        return out
 
     @staticmethod
     def _small_scope():
@@ -687,8 +751,12 @@ class P(core.Prop):
                     continue
                 for want in (wants if api != 'default' else [None]):
                     for accept in ((True, False) if api in ('create', 'default', 'cfg_create') else (True,)):
-                        out.append({'kind': 'hist', 'sp': sp, 'dflt': dflt,
-                                    'ops': [{'api': api, 'want': want, 'avail': 40001, 'accept': accept}]})
+                        for names in (('linelist', 'portlines') if api.startswith('cfg') else (None,)):
+                            c = {'kind': 'hist', 'sp': sp, 'dflt': dflt,
+                                 'ops': [{'api': api, 'want': want, 'avail': 40001, 'accept': accept}]}
+                            if names:
+                                c['names'] = names
+                            out.append(c)
         return out
 
     # ---------------------------------------------------------------- shrinking
@@ -711,12 +779,19 @@ class P(core.Prop):
                 ws = ls[i].split(' ')
                 if len(ws) > 1:
                     yield dict(case, **{key: ls[:i] + [' '.join(ws[:-1]).rstrip(' ')] + ls[i + 1:]})
+        if names_of(case) != 'linelist':
+            yield dict(case, names='linelist')
         for i, o in enumerate(ops):
             if not o['accept']:
                 yield dict(case, ops=ops[:i] + [dict(o, accept=True)] + ops[i + 1:])
 
     finding_preds = {
         'cfg_call_after_refused_setconf': lambda c, o: c['kind'] == 'hist' and bool(o.get('flag')),
+        # C18-F6: TorConfig attached to a Tor that announces SocksPort through the <X>PortLines rows and whose
+        # only SocksPort line is exactly the word auto (input-defined; outside Model/SocksPort.v)
+        'cfg_sole_auto_line_taken_as_unset': lambda c, o: (c['kind'] == 'hist' and names_of(c) != 'linelist'
+                                                           and c['sp'] == ['auto']
+                                                           and any(is_cfg(x) for x in c['ops'])),
     }
 
 
